@@ -13,6 +13,9 @@ def world():
                'mod_segment', 'segment_num', 'program_id', 'a', 'b'):
         w[nm] = z3.Int(nm)
     w['inband'] = z3.Bool('inband')
+    for nm in ('opt_default', 'opt_min', 'opt_max', 'opt_v'):
+        w[nm] = z3.Int(nm)
+    w['opt_empty'] = z3.Bool('opt_empty')
     w['MPEG_TIMEBASE'] = 90000
     w['segdur'] = z3.Function('segdur', INT, INT)
     w['__bases__'] = {'Scte35Events': ['RepeatingEventBase'], 'PingPongEvents': ['RepeatingEventBase']}
@@ -207,17 +210,78 @@ CREATE_BINARY_SIGNAL = Contract(
 )
 
 
+# ----------------------------------------------------------------------------- event option ranges (what establishes REQ_EMSG)
+EVB = 'dashlive/server/events/base.py'
+OPTION_RANGES = {'count': (0, None), 'duration': (0, None), 'interval': (1, None), 'start': (0, None), 'timescale': (1, None),
+                 'version': (0, 1)}
+
+
+def int_option(has_min, has_max):
+    """EventBase.int_or_default_from_string(default, minimum, maximum) -> int_or_default(value): the default for an empty
+    text, the number itself when it lies in the range, ValueError (the handlers' 400) otherwise"""
+    def env(w):
+        from pyvc.models.text import SignedDigits
+        return {'value': Opaque('option-text'), 'default': z3.Int('opt_default'),
+                'minimum': z3.Int('opt_min') if has_min else None, 'maximum': z3.Int('opt_max') if has_max else None}
+    out = ' or '.join((['opt_v < opt_min'] if has_min else []) + (['opt_v > opt_max'] if has_max else [])) or 'False'
+    return Contract(
+        key=f'{EVB}:EventBase.int_or_default_from_string.int_or_default', variant=f'min={has_min},max={has_max}', props=['C16', 'C14'],
+        env=env,
+        models={'DashOption.int_or_none_from_string': lambda eng, e, a, kw: Opt(z3.Bool('opt_empty'), z3.Int('opt_v'))},
+        ensures=[('default_for_an_empty_text', 'result == opt_default if opt_empty else True'),
+                 ('the_number_itself_in_range', f'result == opt_v if not opt_empty else True'),
+                 ('result_in_range', ('True' if not has_min else '(opt_empty or result >= opt_min)') + ' and ' +
+                                     ('True' if not has_max else '(opt_empty or result <= opt_max)'))],
+        raises={'ValueError': f'(not opt_empty) and ({out})'},
+        canaries=['result == opt_default + 1 and opt_empty'],
+        witness_terms=lambda w: (lambda ev: dict({k: ev(z3.Int(k)) for k in ('opt_default', 'opt_min', 'opt_max', 'opt_v')},
+                                                 opt_empty=ev(z3.Bool('opt_empty')))),
+    )
+
+
+INT_OPTION = [int_option(True, True), int_option(True, False), int_option(False, False)]
+
+
+def lemma_option_ranges(w):
+    """the ranges the option table declares (read from the checked tree) establish the preconditions of create_emsg_boxes /
+    create_manifest_context / create_binary_signal: interval >= 1, timescale >= 1, count, start, duration >= 0,
+    version in {0, 1}; and get_dash_options hands each key's range to int_or_default_from_string"""
+    import ast as _ast
+    import os
+    repo = w.get('__repo__', '/repo')
+    src = open(os.path.join(repo, EVB)).read()
+    tree = _ast.parse(src)
+    tables = {}
+    for cls in tree.body:
+        if isinstance(cls, _ast.ClassDef) and cls.name == 'EventBase':
+            for st in cls.body:
+                if isinstance(st, _ast.Assign) and isinstance(st.targets[0], _ast.Name) and st.targets[0].id in ('MINIMUM_VALUES', 'MAXIMUM_VALUES', 'DEFAULT_VALUES'):
+                    try:
+                        tables[st.targets[0].id] = _ast.literal_eval(st.value)
+                    except ValueError:
+                        pass
+    mins, maxs, dflt = tables.get('MINIMUM_VALUES', {}), tables.get('MAXIMUM_VALUES', {}), tables.get('DEFAULT_VALUES', {})
+    ok = all(k in mins and mins[k] >= lo for k, (lo, hi) in OPTION_RANGES.items()) and \
+        all(hi is None or (k in maxs and maxs[k] <= hi) for k, (lo, hi) in OPTION_RANGES.items()) and \
+        all(isinstance(dflt.get(k), int) and not isinstance(dflt.get(k), bool) and dflt[k] >= lo and (hi is None or dflt[k] <= hi)
+            for k, (lo, hi) in OPTION_RANGES.items())
+    wired = 'cls.int_or_default_from_string(dflt,cls.MINIMUM_VALUES.get(key),cls.MAXIMUM_VALUES.get(key))' in ''.join(src.split())
+    return [], z3.BoolVal(bool(ok and wired))
+
+
 GROUP = Group(
     name='events',
     world=world,
-    contracts=[CREATE_EMSG_BOXES, CREATE_MANIFEST_CONTEXT, CREATE_BINARY_SIGNAL],
+    contracts=[CREATE_EMSG_BOXES, CREATE_MANIFEST_CONTEXT, CREATE_BINARY_SIGNAL] + INT_OPTION,
+    lemmas=[Lemma('event_option_ranges_establish_the_preconditions', ['C16', 'C14'], lemma_option_ranges)],
     assumptions=['C14: EventMessageBox / EventStream / BinarySignal / SpliceInsert / SegmentationDescriptor constructors are '
                  'records of their keyword arguments; payload generation (get_*_event_payload) is abstract in '
                  'create_emsg_boxes / create_manifest_context',
                  'C14: MPEG_TIMEBASE == 90000 (dashlive/mpeg/__init__.py)'],
     not_covered=['the SCTE-35 binary encode / parse round trip is proved in group scte35 (same property); here only the field '
                  'values handed to the encoder and their widths (create_binary_signal/post.widths)',
-                 'EventFactory / option parsing -> preconditions of create_emsg_boxes (interval >= 1): known findings under C16',
+                 'the preconditions of create_emsg_boxes on the event options (interval >= 1, timescale >= 1, ...) are established where the '
+                 'options are parsed (int_or_default contracts + range lemma); EventFactory and values stored as stream defaults are not covered',
                  'exactly-once across consecutive segments: follows from the per-segment exact-set postcondition only if '
                  'consecutive segments have b(k) == a(k+1), i.e. the same floor of the same tick count (C02 gaplessness); '
                  'stated, not mechanised'],
